@@ -1,6 +1,7 @@
 (* C06 — Loop iteration limit bounds nested iteration.  Property theorems only.
-   All statements are about Limits.run_prog repaired, the executable model of the REPAIRED code
-   (.work/fixes/C06-loop-carry.patch) that the correspondence run compares with the engine. *)
+   All statements are about Limits.run_prog v for EVERY variant v with is_repaired v (both repairs present:
+   .work/fixes/C06-loop-carry.patch, C08-zero-limits.patch; v_item - whether render-for copies one context or one
+   per item - is left free).  Limits.repaired, which the correspondence run compares with the engine, is one. *)
 From LiquidVerif Require Import Prelude PyPrims Limits Limits_Proofs Limits_Sim_Proofs.
 Local Open Scope Z_scope.
 
@@ -8,48 +9,48 @@ Local Open Scope Z_scope.
    if the render completes, every text leaf it executed was executed while the TRUE product of the lengths of
    all enclosing repeating constructs (for, tablerow, include-with-array, render-for; through include, render,
    macro call, capture, ifchanged) was <= L.  s_leaf is the ghost log of that product at every leaf execution. *)
-Theorem C06_bound : forall lim L, l_loop lim = Some L -> forall main sizes s,
+Theorem C06_bound : forall v lim L, is_repaired v -> l_loop lim = Some L -> forall main sizes s,
   (1 <= L)%N ->
-  run_prog repaired lim main sizes = LOk s ->
+  run_prog v lim main sizes = LOk s ->
   Forall (fun p => (p <= L)%N) (s_leaf s).
 Proof. exact run_leaf_bound. Qed.
 Print Assumptions C06_bound.
 
 (* the invariant behind it: in every context the product the engine computes (loop stack x carry) equals the
    true product; it is re-established by every construct for the context its block runs in *)
-Theorem C06_bookkeeping_is_true_product : forall lim L f n,
-  l_loop lim = Some L -> linv L f -> loop_exceeded repaired lim f n = false ->
-  linv L (f_for f n) /\ linv L (f_scale repaired f n) /\ (forall z, linv L (f_copy f z)).
+Theorem C06_bookkeeping_is_true_product : forall v lim L f n,
+  is_repaired v -> l_loop lim = Some L -> linv L f -> loop_exceeded v lim f n = false ->
+  linv L (f_for f n) /\ linv L (f_scale v f n) /\ (forall z, linv L (f_copy f z)).
 Proof.
-  intros lim L f n HL HI He. split; [exact (linv_for lim L HL f n HI He)|].
-  split; [exact (linv_scale lim L HL f n HI He)|]. intro z. exact (linv_copy L f z HI).
+  intros v lim L f n Hv HL HI He. split; [exact (linv_for v lim L Hv HL f n HI He)|].
+  split; [exact (linv_scale v lim L Hv HL f n HI He)|]. intro z. exact (linv_copy L f z HI).
 Qed.
 Print Assumptions C06_bookkeeping_is_true_product.
 
 (* a completed render contains no reached nest whose lengths multiply to more than L
    (maxprod_list: declarative maximum over the nest; a zero length cuts its subtree) *)
-Theorem C06_completed_within_limit : forall lim L, l_loop lim = Some L -> forall main sizes s,
+Theorem C06_completed_within_limit : forall v lim L, is_repaired v -> l_loop lim = Some L -> forall main sizes s,
   (1 <= L)%N ->
-  run_prog repaired lim main sizes = LOk s -> (maxprod_list 1 main <= L)%N.
+  run_prog v lim main sizes = LOk s -> (maxprod_list 1 main <= L)%N.
 Proof. exact run_maxprod. Qed.
 Print Assumptions C06_completed_within_limit.
 
 (* a nest whose lengths multiply to more than L raises LoopIterationLimitError: whenever the render completes
    with the loop limit removed (the other limits unchanged) and some reached nest multiplies to more than L *)
-Theorem C06_raises : forall lim L main sizes s,
+Theorem C06_raises : forall v, is_repaired v -> forall lim L main sizes s,
   l_loop lim = Some L -> (1 <= L)%N ->
-  run_prog repaired (with_loop lim None) main sizes = LOk s ->
+  run_prog v (with_loop lim None) main sizes = LOk s ->
   (L < maxprod_list 1 main)%N ->
-  run_prog repaired lim main sizes = LErr XLoop.
+  run_prog v lim main sizes = LErr XLoop.
 Proof. exact run_loop_raises. Qed.
 Print Assumptions C06_raises.
 
 (* ... and ONLY then: if no reached nest multiplies to more than L, the loop limit changes nothing - the render
    under limit L is, outcome for outcome, the render with the loop limit removed.  With C06_raises this
    characterises the limit exactly by the largest product of nested lengths. *)
-Theorem C06_no_false_alarm : forall lim L, l_loop lim = Some L -> forall main sizes,
+Theorem C06_no_false_alarm : forall v lim L, is_repaired v -> l_loop lim = Some L -> forall main sizes,
   (1 <= L)%N -> (maxprod_list 1 main <= L)%N ->
-  run_prog repaired lim main sizes = run_prog repaired (with_loop lim None) main sizes.
+  run_prog v lim main sizes = run_prog v (with_loop lim None) main sizes.
 Proof. exact run_no_false_alarm. Qed.
 Print Assumptions C06_no_false_alarm.
 
